@@ -13,6 +13,9 @@ From QSX Require Import IO.LpWrite IO.LpRead IO.MpsWrite IO.LpRoundtrip IO.LpNam
 From QSX Require Import Store.RawLoad.
 From QSX Require Import Fac.LUFactor Fac.TopoOrder.
 From QSX Require Import Store.GuardDefs Gen.Guards.
+From QSX Require Import IO.MpsRead.
+From QSX Require Import IO.MpsWf.
+From QSX Require Import IO.Esolver.
 (* one Require line per area may be added below *)
 
 Extraction Language OCaml.
@@ -38,5 +41,8 @@ Extraction "model.ml"
   lib_load_raw_c merge_col_c
   lu_factor lu_steps lu_init lu_kernel lu_auto_pivots repr_same_lu repair_cols check_sing_report lines_eqb etas_eqb natlist_eqb listed_order_ok
   guards guard_accepts role_accepts
+  read_mps_res mlp_to_nlp
+  wf_mpsb wf_coreb setnames_okb write_mps_fixed
+  esolver the_ftype get_ftype parse_args
   (* add names below, one line per area *)
   .
